@@ -410,9 +410,9 @@ End Shape.
 (* ------------------------------------------------------------------ source.go line merging *)
 Lemma merges_near_lemma : forall e l,
   min_i64 <= e <= max_i64 -> min_i64 <= l <= max_i64 -> e <= l ->
-  l - e < 9223372036854775808 -> merges e l = true -> l - e < merge_limit.
+  (merges e l = true <-> l - e < merge_limit).
 Proof.
-  intros e l He Hl Hle Hd Hm. unfold merges, wrap64, merge_limit, min_i64, max_i64 in *.
-  apply Z.ltb_lt in Hm.
-  rewrite Z.mod_small in Hm by lia. lia.
+  intros e l He Hl Hle. unfold merges, merge_limit, min_i64, max_i64 in *.
+  rewrite Z.ltb_lt. rewrite Z.mod_small by lia. reflexivity.
 Qed.
+
